@@ -3,6 +3,7 @@ from .common import jobs_for
 LEVEL = 'proof'
 LEVEL_TEXT = 'relational obligations between two traces of the real builders on one symbolic grid and on the same grid with lengths x L (angles unchanged), coefficients and data rescaled by their physical dimension with symbolic L, T, K > 0: every matrix term applied to K*phi, every vector term, transient, sources scale by K/T, boundary ghost values by K, the limiter receives the unchanged gradient ratio; additivity and homogeneity of every term in its coefficient field (upwind / TVD at fixed upwind direction)'
 LEVEL_NOTE = 'every interior row of the assembled system scales by K/T and every boundary row by K, so the solution scales by K for any number of steps (uniqueness of the solution of a non-singular system, A4); the TVD term is exactly invariant only outside the absolute guard band of _fsign (|difference quotient| >= 1e-16 or exactly 0 in both unit systems): this precondition is explicit in the obligation'
+NOT_MACHINE_CHECKED = ['solution level: every assembled row scales by a positive factor and the unknown by K (proved per row) => the solution scales by K (Lean scaled_solution / unique_solution, non-singularity assumed A4); several steps by iteration', 'inside the absolute guard band 0 < |difference| < 1e-16 of _fsign the TVD term is not exactly scale invariant (explicit precondition of the obligation)']
 MODULES = ['contracts.units']
 TRUSTED = ['A1', 'A2', 'A4', 'A5', 'A6', 'UF']
 
